@@ -22,7 +22,9 @@ def _judge(run):
     return (["best_changed_after_first"] if ch.changes_after_first else []), bool(nt)
 
 
-P = ScenarioProperty(PROP, {"observe_intermittently": True}, lambda sc: [C04Checker(sc)], _judge, quick=1600, thorough=30000, machine={})
+from ..scenario import Objective  # noqa: E402
+
+P = ScenarioProperty(PROP, {"observe_intermittently": True, "families": Objective.FAMILIES + ["infpit"]}, lambda sc: [C04Checker(sc)], _judge, quick=1600, thorough=30000, machine={})
 
 
 def run_shard(tier, seed, shard, nshards, tally, scale=1.0):
